@@ -3470,3 +3470,141 @@ Proof.
   - unfold fresh_in. eapply Forall_impl; [|exact R5]. intros p (Hp1 & _) Hl.
     apply Hp1. destruct P3 as (Q & _). exact (Q p Hl).
 Qed.
+
+(* ===================================================================== list? *)
+Lemma pchain_fun h v c1 e1 : pchain h v c1 e1 -> forall c2 e2, pchain h v c2 e2 -> c1 = c2 /\ e1 = e2.
+Proof.
+  intros H1. induction H1 as [v c Hd Hp | v a d cells e Hd Hc IH]; intros c2 e2 H2.
+  - inversion H2 as [v0 c0 Hd0 Hp0 | v0 a0 d0 cells0 e0 Hd0 Hc0]; subst; [auto|].
+    rewrite Hd in Hd0. injection Hd0 as ->. discriminate.
+  - inversion H2 as [v0 c0 Hd0 Hp0 | v0 a0 d0 cells0 e0 Hd0 Hc0]; subst.
+    + rewrite Hd in Hd0. injection Hd0 as <-. discriminate.
+    + rewrite Hd in Hd0. injection Hd0 as <- <-. destruct (IH _ _ Hc0) as (-> & ->). auto.
+Qed.
+
+Lemma pchain_suffix h v cells e :
+  pchain h v cells e -> forall i a d, nth_error cells i = Some (a, d) ->
+  pchain h (VPtr d) (skipn (S i) cells) e.
+Proof.
+  intros Hc. induction Hc as [v c Hd Hp | v a0 d0 cells e Hd Hc IH]; intros i a d En.
+  - destruct i; discriminate.
+  - destruct i as [|i]; cbn [nth_error] in En.
+    + injection En as -> ->. cbn [skipn]. exact Hc.
+    + cbn [skipn]. exact (IH i a d En).
+Qed.
+
+Lemma pchain_cdr_distinct h v cells e :
+  pchain h v cells e -> forall i j ai di aj dj,
+  nth_error cells i = Some (ai, di) -> nth_error cells j = Some (aj, dj) -> di = dj -> i = j.
+Proof.
+  intros Hc i j ai di aj dj Ei Ej Ed. subst dj.
+  pose proof (pchain_suffix _ _ _ _ Hc _ _ _ Ei) as Si.
+  pose proof (pchain_suffix _ _ _ _ Hc _ _ _ Ej) as Sj.
+  destruct (pchain_fun _ _ _ _ Si _ _ Sj) as (El & _).
+  apply (f_equal (@length _)) in El. rewrite !skipn_length in El.
+  assert (i < length cells)%nat by (apply nth_error_Some; congruence).
+  assert (j < length cells)%nat by (apply nth_error_Some; congruence).
+  lia.
+Qed.
+
+Lemma nth_error_skipn {A} k : forall (l : list A) x, nth_error l k = Some x -> exists r, skipn k l = x :: r.
+Proof.
+  induction k as [|k IH]; intros [|y r] x E; try discriminate.
+  - cbn in E. injection E as ->. cbn. eauto.
+  - cbn [nth_error] in E. cbn [skipn]. now apply IH.
+Qed.
+
+(* the cell reached from the i-th pair of a finite chain *)
+Lemma pchain_next h v cells e i a d :
+  pchain h v cells e -> nth_error cells i = Some (a, d) ->
+  match nth_error cells (S i) with
+  | Some (a', d') => heap_deref h (VPtr d) = Ok (VPair a' d')
+  | None => exists ce, heap_deref h (VPtr d) = Ok ce /\ is_pair ce = false /\ heap_deref h e = Ok ce
+  end.
+Proof.
+  intros Hc En. pose proof (pchain_suffix _ _ _ _ Hc _ _ _ En) as Hs.
+  destruct (nth_error cells (S i)) as [[a' d']|] eqn:En'.
+  - destruct (nth_error_skipn _ _ _ En') as (r & Er).
+    rewrite Er in Hs. inversion Hs; subst. assumption.
+  - assert (Hsk : skipn (S i) cells = []).
+    { apply nth_error_None in En'. apply skipn_all2. exact En'. }
+    rewrite Hsk in Hs. inversion Hs as [v0 c0 Hd0 Hp0 |]; subst. exists c0. auto.
+Qed.
+
+Lemma is_list_loop_fin s v cells e ce :
+  pchain (hp s) v cells e -> heap_deref (hp s) e = Ok ce -> is_pair ce = false ->
+  forall (m i j : nat) (adv : bool) ai di aj dj f,
+    (length cells - i = m)%nat -> (i < length cells)%nat ->
+    nth_error cells i = Some (ai, di) -> nth_error cells j = Some (aj, dj) ->
+    (if adv then i = 2 * j + 1 else i = 2 * j)%nat -> (m + 2 <= f)%nat ->
+    is_list_loop f (VPair ai di) (VPair aj dj) adv s = ROk (VBool (is_nil ce)) s.
+Proof.
+  intros Hc Hce Hpe m. induction m as [|m IH]; intros i j adv ai di aj dj f Hm Hi Ei Ej Hadv Hf; [lia|].
+  destruct f as [|f]; [lia|].
+  cbn [is_list_loop is_pair negb as_cdr bindM ret].
+  pose proof (pchain_next _ _ _ _ _ _ _ Hc Ei) as Hn.
+  destruct (nth_error cells (S i)) as [[a' d']|] eqn:En'.
+  - (* the next cell is a pair *)
+    rewrite (bind_ok _ _ _ _ _ (hderef_ok s _ _ Hn)).
+    assert (Hi' : (S i < length cells)%nat) by (apply nth_error_Some; congruence).
+    destruct adv.
+    + pose proof (pchain_next _ _ _ _ _ _ _ Hc Ej) as Hnj.
+      assert (Hj' : (S j < length cells)%nat) by lia.
+      destruct (nth_error cells (S j)) as [[a2 d2]|] eqn:Enj; [|apply nth_error_None in Enj; lia].
+      cbn [as_cdr bindM ret]. rewrite (bind_ok _ _ _ _ _ (hderef_ok s _ _ Hnj)).
+      cbn [is_pair pair_eqb andb].
+      destruct ((a' =? a2) && (d' =? d2)) eqn:Eq.
+      * exfalso. apply andb_prop in Eq. destruct Eq as (_ & Ed). apply N.eqb_eq in Ed.
+        pose proof (pchain_cdr_distinct _ _ _ _ Hc _ _ _ _ _ _ En' Enj Ed). lia.
+      * cbn [negb]. apply (IH (S i) (S j) false a' d' a2 d2 f); auto; lia.
+    + cbn [negb]. apply (IH (S i) j true a' d' aj dj f); auto; lia.
+  - (* the chain ends *)
+    destruct Hn as (c2 & Hd2 & Hp2 & He2). rewrite Hce in He2. injection He2 as <-.
+    rewrite (bind_ok _ _ _ _ _ (hderef_ok s _ _ Hd2)).
+    destruct f as [|f]; [lia|].
+    destruct adv.
+    + pose proof (pchain_next _ _ _ _ _ _ _ Hc Ej) as Hnj.
+      cbn [as_cdr bindM ret].
+      destruct (nth_error cells (S j)) as [[a2 d2]|] eqn:Enj.
+      * rewrite (bind_ok _ _ _ _ _ (hderef_ok s _ _ Hnj)). rewrite Hpe. cbn [andb negb is_list_loop].
+        rewrite Hpe. reflexivity.
+      * destruct Hnj as (c3 & Hd3 & _). rewrite (bind_ok _ _ _ _ _ (hderef_ok s _ _ Hd3)).
+        rewrite Hpe. cbn [andb negb is_list_loop]. rewrite Hpe. reflexivity.
+    + cbn [negb is_list_loop]. rewrite Hpe. reflexivity.
+Qed.
+
+Theorem is_list_refines fuel s v xs e :
+  values_are_refs s -> val_ok s v -> called_with s [v] ->
+  achain (abs s) (absv s v) xs e -> (length xs + 3 < fuel)%nat ->
+  exists s', is_list fuel s = ROk (VBool (match e with AImm VNil => true | _ => false end)) s' /\
+             hp s' = hp s /\ st s' = st s.
+Proof.
+  intros W Hv H Hch Hfuel. unfold called_with in H. cbn [len length rev app N.of_nat Pos.of_succ_nat] in H.
+  set (s1 := with_sp s (sp s - 1)).
+  set (s2 := with_sp s1 (sp s1 - 1)).
+  pose proof (stack_top_tail _ _ _ _ H) as H1.
+  destruct (achain_pchain s W _ _ _ Hch v Hv eq_refl) as (cells & e' & Hpc & Hm & He & Hve).
+  assert (Hlen : length cells = length xs) by (rewrite <- Hm; now rewrite map_length).
+  destruct (pchain_end_deref _ _ _ _ Hpc) as (ce & Hce & Hpe).
+  assert (Hnil : is_nil ce = match e with AImm VNil => true | _ => false end).
+  { pose proof (nil_deref s e' ce Hve Hce) as Hn. rewrite He in Hn.
+    destruct (is_nil ce) eqn:En.
+    - destruct ce; try discriminate. rewrite (proj2 Hn eq_refl). reflexivity.
+    - destruct e as [w| |]; try reflexivity. destruct w; try reflexivity.
+      rewrite (proj1 Hn eq_refl) in En. discriminate. }
+  exists s2. refine (conj _ (conj eq_refl eq_refl)). rewrite <- Hnil.
+  destruct (val_deref s v Hv) as (c & Hc & _ & _).
+  assert (Hrun : is_list fuel s = is_list_loop fuel c c false s2).
+  { unfold is_list. pop_argc_tac H s 1 1 (Some 1). fold s1.
+    unfold bindM at 1. rewrite (pop_value_top s1 v [] H1). fold s2. unfold lift.
+    change (hp s1) with (hp s). rewrite Hc. reflexivity. }
+  rewrite Hrun.
+  inversion Hpc as [v0 c0 Hd0 Hp0 | v0 a d cells0 e0 Hd0 Hc0]; subst.
+  - rewrite Hc in Hd0. injection Hd0 as <-. rewrite Hce in Hc. injection Hc as ->.
+    destruct fuel as [|f]; [lia|]. cbn [is_list_loop]. rewrite Hp0. reflexivity.
+  - rewrite Hc in Hd0. injection Hd0 as ->.
+    assert (Hpc2 : pchain (hp s2) v ((a, d) :: cells0) e') by exact Hpc.
+    rewrite map_length in Hlen, Hfuel. cbn [length] in Hlen, Hfuel.
+    apply (is_list_loop_fin s2 v ((a, d) :: cells0) e' ce Hpc2 Hce Hpe
+             (length ((a, d) :: cells0)) 0%nat 0%nat false a d a d fuel); cbn [length nth_error]; auto; lia.
+Qed.
